@@ -195,7 +195,7 @@ def gen_cases(chk):
     if not q:
         add("std-late-ckpt-onlyold", "std_late", [W("checkpoint", [["rm", "PKL"]])])
         add("std-late-ckpt-stalewhole", "std_late", [W("checkpoint", [stale_whole])])
-        add("std-late-nokeep-onlyold", "std_late", [W("checkpoint_nokeep", [["rm", "PKL"], stale_torn])])
+        add("std-late-nokeep-onlyold", "std_late", [W("checkpoint_nokeep", [stale_torn, ["rm", "PKL"]])])
         add("std-late-weights-noold", "std_late", [W("save_weights", [["rm", "WT.old"]])])
         add("std-early-first-ckpt-nokeep", "std_early", [W("checkpoint_nokeep", [["rm", "PKL"], ["rm", "PKL.old"]])])
         add("ins-first-ckpt", "ins", [W("checkpoint", [["rm", "PKL"]])])
